@@ -134,6 +134,24 @@ CHECKS = {
     note=REAL + "n<=4 choices, q<=4, out_dim<=2(3); runs: N=2, 2 steps; Thompson sampling randomness and real posteriors outside",
     technique="symbolic execution of the real numpy code on z3 reals + SMT per path; term identity on recording stubs",
     design_ref="DESIGN.md §3 C07"),
+ "C01": dict(
+    text="Whole-run guarantee decided by ONE inductive step of the real discarding/pareto_updating/useful_updating code (Auer: "
+         "discarding/pareto_updating inline) from every invariant-satisfying state with symbolic regions and truths: J1 "
+         "(eliminated designs are dominated by kept ones), J2 (members of P have gap ≤ ε), J3 (dropped Pareto designs cannot "
+         "ε-exceed candidates) are proved inductive by z3; S=∅ ∧ J1 ∧ J2 is the property's consequent. Failures of the step "
+         "from the initial state are realised as concrete regions + truths and replayed on the real code (two open known "
+         "findings).",
+    note="conditional on C09/C10/C17; N<=3 (4) designs, rounds unbounded for that N; ellipsoids of any shape via support "
+         "intervals, cones incl. K != m; rectangles for K = m; relative tolerance 1e-6 on ε; " + REAL,
+    technique="inductive invariant checking by symbolic execution of the real phase code + SMT (QF_LRA)",
+    design_ref="DESIGN.md §3 C01/C05"),
+ "C05": dict(
+    text="As C01 for VOGP and ε-PAL: K1 (ε-isolated optima stay in S∪P), K2 (P internally non-ε-dominated), K3 (no candidate "
+         "ε-dominates a member of P) are proved inductive on the real discarding/epsiloncovering code; S=∅ ∧ K1 ∧ K2 is the "
+         "property's consequent.",
+    note="conditional on C09/C10/C17; N<=3 designs, K = m cones (VOGP), orthant (ε-PAL); " + REAL,
+    technique="inductive invariant checking by symbolic execution of the real phase code + SMT (QF_LRA)",
+    design_ref="DESIGN.md §3 C01/C05"),
 }
 
 _WIP = "check not built yet (work in progress; will be claimed once its harness exists)"
